@@ -42,6 +42,8 @@ type vtPKI struct {
 	otherCAKey  *ecdsa.PrivateKey
 	hostCA      *x509.Certificate // the only CA of the host's trust store, as this process sees it
 	hostCAKey   *ecdsa.PrivateKey
+	oldCA       *x509.Certificate // the CA the bundle at caPath held before the last ROTATE
+	oldCAKey    *ecdsa.PrivateKey
 	serial      int64
 }
 
@@ -60,6 +62,7 @@ type vtLeafOpt struct {
 	selfSigned bool
 	otherCA    bool
 	hostCA     bool
+	oldCA      bool
 	notBefore  time.Time
 	notAfter   time.Time
 	eku        []x509.ExtKeyUsage
@@ -89,6 +92,9 @@ func (p *vtPKI) leaf(o vtLeafOpt) tls.Certificate {
 	}
 	if o.hostCA {
 		parent, pkey = p.hostCA, p.hostCAKey
+	}
+	if o.oldCA && p.oldCA != nil {
+		parent, pkey = p.oldCA, p.oldCAKey
 	}
 	var der []byte
 	if o.selfSigned {
@@ -152,6 +158,7 @@ func (p *vtPKI) credentials(role string) map[string]*tls.Certificate {
 		"selfsigned":     mk(vtLeafOpt{selfSigned: true, dns: name}),
 		"otherca":        mk(vtLeafOpt{otherCA: true, dns: name}),
 		"hostca":         mk(vtLeafOpt{hostCA: true, dns: name}), // issued by a CA of the host's trust store
+		"oldca":          mk(vtLeafOpt{oldCA: true, dns: name, selfSigned: p.oldCA == nil}), // issued by the CA the bundle held before it was replaced
 		"expired1h":      mk(vtLeafOpt{dns: name, notBefore: time.Now().Add(-48 * time.Hour), notAfter: time.Now().Add(-time.Hour)}),
 		"expired90s":     mk(vtLeafOpt{dns: name, notBefore: time.Now().Add(-48 * time.Hour), notAfter: time.Now().Add(-90 * time.Second)}),
 		"notyetvalid90s": mk(vtLeafOpt{dns: name, notBefore: time.Now().Add(90 * time.Second), notAfter: time.Now().Add(48 * time.Hour)}),
@@ -227,6 +234,20 @@ func TestVerifTLS(t *testing.T) {
 	}
 	for sc.Scan() {
 		f := verifFields(sc.Text())
+		if len(f) == 1 && f[0] == "ROTATE" {
+			// the CA bundle at the configured path is replaced by another CA (certificate rotation); the proxy's own
+			// certificate is re-issued by it.  Configurations built from now on must trust the new CA and only it.
+			pki.oldCA, pki.oldCAKey = pki.ca, pki.caKey
+			var pem2 []byte
+			pki.ca, pki.caKey, pem2 = pki.newCA("verif-ca-rotated")
+			_ = os.WriteFile(pki.caPath, pem2, 0o600)
+			own := pki.leaf(vtLeafOpt{dns: vtServerName})
+			_ = os.WriteFile(pki.ownCert, pem.EncodeToMemory(&pem.Block{Type: "CERTIFICATE", Bytes: own.Certificate[0]}), 0o600)
+			kb, _ := x509.MarshalECPrivateKey(own.PrivateKey.(*ecdsa.PrivateKey))
+			_ = os.WriteFile(pki.ownKey, pem.EncodeToMemory(&pem.Block{Type: "EC PRIVATE KEY", Bytes: kb}), 0o600)
+			fmt.Fprintln(w, "ROTATE ok")
+			continue
+		}
 		if len(f) < 6 {
 			continue
 		}
